@@ -814,7 +814,8 @@ class Server():
                 if requestant.persisted:
                     if requestant.parser is None:  # reuse
                         requestant.makeParser()  # resets requestant parser
-                else:  # not persistent so close and remove requestant and responder
+                elif requestant.parser is None:  # else .persisted is that of next request
+                    # not persistent so close and remove requestant and responder
                     ix = self.servant.ixes[ca]
                     if not ix.txbs:  # wait for outgoing txbs to be empty
                         self.closeConnection(ca)
